@@ -10,6 +10,7 @@ import numpy
 
 from dsim import ctx as C
 from dsim import entropy as E
+from dsim import peers as P
 from props import common as U
 from props import registry as R
 
@@ -128,6 +129,7 @@ def run(c, index, tier):
             kinds.append("unseen-only")
         if not is_frame:
             kinds.append("buffer-reuse")
+            kinds.append("interrupted")
         op = ch.choice("w", kinds, "op")
         if len(c.scenario["ops"]) < 20:
             c.scenario["ops"].append(op)
@@ -164,6 +166,46 @@ def run(c, index, tier):
             continue
         if op == "n_jobs":
             est.set_params(n_jobs=ch.choice("w", [2, 3, None], "n_jobs-val"))
+            continue
+        if op == "interrupted":
+            # a prediction call dies half-way (an inner model raises, or the
+            # caller interrupts it): the model is as good as before -- the next
+            # call returns the outputs of its rows
+            m = ch.choice("w", sorted(ref), "method")
+            size = ch.integer("w", 1, m_rows, "int-size")
+            idx = numpy.sort(rs.permutation(m_rows)[:size])
+            env()
+            c.fault_plan = P.FaultPlan(())
+            ok, _ = _call(c, est, m, _take(Xb, idx))
+            sites = list(c.fault_plan.seen)
+            if not ok or not sites:
+                c.fault_plan = None
+                c.probe("no_fault_site_inside_predict")
+                continue
+            site = sites[ch.draw("f", len(sites), "site")]
+            kind = ch.weighted("f", [("runtime", 3), ("value", 2), ("cancel", 1)], "fault-kind")
+            env()
+            c.fault_plan = P.FaultPlan([site], kind)
+            ok, out = _call(c, est, m, _take(Xb, idx))
+            fired = bool(c.fault_plan.fired)
+            c.fault_plan = None
+            if not fired:
+                c.probe("fault_site_not_reached_again")
+                continue
+            c.probe("prediction_call_interrupted")
+            if ok:
+                c.probe("interrupted_call_returned_normally")
+            idx2 = numpy.sort(rs.permutation(m_rows)[: ch.integer("w", 1, m_rows, "int-size2")])
+            env()
+            ok, out = _call(c, est, m, _take(Xb, idx2))
+            rt, at = tol.get(m, R.TOL)
+            if Xb.dtype == numpy.float32 and (rt, at) != R.EXACT:
+                rt, at = max(rt, 1e-4), max(at, 1e-5)
+            solid = ~fragile[idx2]
+            if not ok:
+                _viol(c, seen, spec, "call-raised", (m, "after-interrupted-call", type(out).__name__), "%s raised %s on a batch after an earlier %s call was interrupted at %r (%s)" % (m, U.short_exc(out), m, site, kind))
+            elif out.shape[0] != len(idx2) or not U.arrays_equal(out[solid], ref[m][idx2][solid], rt, at):
+                _viol(c, seen, spec, "row-purity", (m, "after-interrupted-call"), "%s after an earlier call was interrupted at %r (%s) does not return the outputs of its rows (rows %r, restart=%s)" % (m, site, kind, idx2.tolist()[:10], restarted))
             continue
         if op == "buffer-reuse":
             # the caller reuses one array object for successive batches: same
